@@ -93,8 +93,10 @@ fn scaled(coef: &Rat, v: &Rat, s_v: &Rat, s_r: &Rat, divisor: &Rat) -> (Rat, Opt
     let v_in_r = v.mul(&ratio_inv);
     let per_unit = v_in_r.div(divisor);
     let exact = per_unit.mul(coef);
-    let cd = coef.div(divisor);
-    let inter: Vec<&Rat> = vec![coef, v, divisor, &ratio, &ratio_inv, &v_in_r, &per_unit, &exact, &cd, s_v, s_r];
+    // The statement's formula is coef * (value / divisor): the quotient
+    // coef / divisor is deliberately NOT among the plausible intermediates -
+    // under the decimal back-end it loses all precision when divisor >> coef.
+    let inter: Vec<&Rat> = vec![coef, v, divisor, &ratio, &ratio_inv, &v_in_r, &per_unit, &exact, s_v, s_r];
     let ok = dec_ok(&inter);
     (exact.clone(), amt::budget_with(&exact, &inter), ok)
 }
@@ -293,7 +295,7 @@ impl Property for C13 {
     }
     fn cases(&self, tier: Tier) -> u64 {
         match tier {
-            Tier::Quick => 40_000,
+            Tier::Quick => 200_000,
             Tier::Thorough => 2_000_000,
         }
     }
